@@ -334,7 +334,13 @@ class Explorer:
                 self._begin(prefix, model)
                 self.paths += 1
                 try:
+                    ob0 = self.obligations
                     fn()
+                    if self.obligations == ob0:
+                        # harness without explicit check() on this path: reaching the end with an allowed outcome
+                        # is the obligation (ex.fail() would have raised)
+                        self.obligations += 1
+                        self.discharged += 1
                     if self.picks:
                         self.incomplete.append("region explored through a single witness: " + self.picks[0][:80])
                 except Violation as v:
@@ -481,6 +487,9 @@ def _pow2_exp(n):
     return None
 
 
+_UF_POW2 = z3.Function("pow2", z3.IntSort(), z3.IntSort())
+
+
 class SInt:
     """Mathematical (unbounded) integer, as Python's int."""
     __slots__ = ("e",)
@@ -601,16 +610,19 @@ class SInt:
         if isinstance(o, SInt):
             oc = concrete_of(o)
             if oc is None:
-                # symbolic shift amount: enumerate (small domains only)
-                oc = cur().concretize(o.e)
+                # symbolic shift amount: 2**amount is an uninterpreted function (over-approximation; a model that
+                # depends on its interpretation is decided by the concrete replay)
+                return SInt(self.e * _UF_POW2(o.e))
             o = oc
         if isinstance(o, int) and o >= 0:
             return SInt(self.e * (1 << o))
         raise Inconclusive("unsupported shift")
 
     def __rlshift__(self, o):
-        k = cur().concretize(self.e)
-        return o << k
+        c = concrete_of(self)
+        if c is not None:
+            return o << c
+        return SInt(to_z3(o) * _UF_POW2(self.e))
 
     def __rshift__(self, o):
         if isinstance(o, SInt):
